@@ -117,6 +117,7 @@ def st_bytes(draw, tier):
     return {"kind": "bytes", "cs": cs, "keep": keep, "k": k, "d": d,
             "seed": draw(st.integers(0, 2**16)),
             "etag": draw(st.sampled_from([True, True, True, False])),
+            "first_fail": draw(st.sampled_from([False, False, False, True])),
             "ops": draw(st.sampled_from([1, 4, 8, 16, 24]).flatmap(
                 lambda lo: st.lists(st_op(), min_size=lo, max_size=MAX_OPS[tier])))}
 
@@ -342,6 +343,16 @@ def _run_bytes(spec, rec):
         rec.cls("size:0")
     f = http_utils.HTTPFile(url, chunk_size=cs, keep_chunks=keep)
     try:
+        if spec.get("first_fail"):
+            # transient server error on the very first (header) request: dclab raises
+            # ValueError; the same object is used again once the server answers
+            srv.fail_once(name, 503)
+            try:
+                f.length
+            except ValueError:
+                rec.cls("header:retry-after-503")
+            else:
+                rec.skip("header:503-not-raised")
         rec.check(f.length == L, "header/length", lambda: f"{f.length} != {L}")
         if spec.get("etag", True):
             rec.check(isinstance(f.etag, str) and len(f.etag) >= 5, "header/etag",
